@@ -132,6 +132,7 @@ func init() {
 		}
 		runs = append(runs, runsOf(lifeRuns(tier), o, MonFlags{Dis: true}, "life-main", "life-caplow-flipped", "life-restart", "fx-main")...)
 		runs = append(runs, RunSpec{Name: "bind-ops+slash-restart", Sc: restartable(scBind(defaultParams(), bindOpsFull(), []Template{tSlash}, []string{"bad"}, d, b, m-1)), Oracles: o, Mon: MonFlags{Dis: true}})
+		runs = append(runs, RunSpec{Name: "bind-ops-main-unit+foreign-token", Sc: scBindFX(defaultParams(), d, b, m), Oracles: o, Mon: MonFlags{Dis: true}})
 		// arbitration 1.5 s + complaint 0.5 s: the refundable instant is exactly two blocks after the disabling time
 		frac := defaultParams()
 		frac.Arbitration, frac.Complaint, frac.Name = 1500*time.Millisecond, 500*time.Millisecond, "arbitration1.5s-complaint0.5s"
@@ -272,6 +273,7 @@ func init() {
 		}
 		runs = append(runs, runsOf(lifeRuns(tier), o, mf)...)
 		runs = append(runs, modSelfStartRun(o, mf, d-1, b, m))
+		runs = append(runs, twoCreatesRun(o, mf, d-2, b-2, m))
 		return runs
 	}})
 	register(&CheckSpec{Prop: "C11", Runs: func(tier string) []RunSpec {
@@ -319,6 +321,7 @@ func init() {
 		runs = append(runs, runsOf(lifeRuns(tier), o, MonFlags{CB: true})...)
 		// the owning module starts a paused context again from inside the response callback of its failed batch
 		runs = append(runs, modSelfStartRun(o, MonFlags{CB: true}, d, b+1, m))
+		runs = append(runs, twoCreatesRun(o, MonFlags{CB: true}, d-1, b-1, m))
 		return runs
 	}})
 	register(&CheckSpec{Prop: "C13", Runs: func(tier string) []RunSpec {
@@ -378,6 +381,7 @@ func init() {
 		// contexts killed by their owning module from inside a callback, in the block in which their batch expires
 		runs = append(runs, RunSpec{Name: "mod-reentrant", Sc: scModReentrant(defaultParams(), []Template{tMod1, tMod2, tModPoor},
 			AlphaOpts{RespKinds: []string{"ok", "bad"}, ModOps: []string{"mpause", "mstart"}}, d, b, m), Oracles: []Oracle{oracleC16{}}, Mon: MonFlags{Kill: true}})
+		runs = append(runs, twoCreatesRun([]Oracle{oracleC16{}}, MonFlags{Kill: true}, d-1, b-1, m))
 		return runs
 	}})
 	register(&CheckSpec{Prop: "C05", Runs: func(tier string) []RunSpec {
@@ -448,6 +452,7 @@ func init() {
 				return sc
 			}(), Oracles: o, Post: queryPost},
 			{Name: "mod-queries", Sc: scMod(defaultParams(), []Template{tMod1, tModPoor}, AlphaOpts{RespKinds: []string{"ok"}, ModOps: []string{"mpause", "mkill"}}, 6+d, 4, 2), Oracles: o, Post: queryPost},
+			{Name: "msvc-queries", Sc: scMsvc(defaultParams(), 4+d, 3, 3), Oracles: o, Post: queryPost},
 			{Name: "life-queries-restart", Sc: restartable(scLife(defaultParams(), []Template{tRep2, tLong}, lo, 6+d, 4, 2)), Oracles: o, Post: queryPost},
 			{Name: "fx-queries", Sc: scFX(defaultParams(), "fusd1v", []Template{tFxOne, tFxRep}, AlphaOpts{RespKinds: []string{"ok"}, Withdraw: []string{"O1:"},
 				BindOps: []Action{actUpdate("a", "P1", "O1", 0, "fcent150", 0), actUpdate("a", "P2", "O2", 0, "fkilo1h", 0)}}, fxSpec(), 5+d, 3, 2), Oracles: o, Post: queryPost},
@@ -597,6 +602,10 @@ func fxBases(tier string) []base {
 		{"fx-rate-unavailable", func() *Scenario {
 			return scFX(paramSet("0.1", "0.001"), "fusd1v", []Template{tFxRep, tFxMix}, fxO, fxSpec(H0+2), d, b, m)
 		}},
+		{"fx-mod-rate-unavailable", func() *Scenario {
+			// a context owned by another module (callbacks recorded) whose only provider is priced in the foreign token
+			return scFX(paramSet("0.1", "0.001"), "fusd1", []Template{tFxMod, tFxOne}, AlphaOpts{RespKinds: []string{"ok"}, ModOps: []string{"mpause", "mstart"}}, fxSpec(H0+2), d, b+1, m)
+		}},
 	}
 }
 
@@ -608,4 +617,11 @@ func priceUpdateRejectedRun(o []Oracle, mon MonFlags, d, b, m int) RunSpec {
 	sc.Name = "S-BIND(refused price updates)"
 	sc.Setup = append(sc.Setup, actBind("a", "P1", "O1", 10, "p1", 1), actBind("a", "P2", "O2", 10, "p1", 1))
 	return RunSpec{Name: "price-update-refused", Sc: sc, Oracles: o, Mon: mon}
+}
+
+// twoCreatesRun: the owning module calls CreateRequestContext a second time under the transaction hash and message
+// index of an earlier call (template moddup shares them with mod1), in the same block or while mod1's batch is in flight.
+func twoCreatesRun(o []Oracle, mon MonFlags, d, b, m int) RunSpec {
+	return RunSpec{Name: "mod-two-creates-in-one-message", Sc: scMod(defaultParams(), []Template{tMod1, tModDup},
+		AlphaOpts{RespKinds: []string{"ok"}, ModOps: []string{"mpause", "mkill"}}, d, b, m), Oracles: o, Mon: mon}
 }
